@@ -624,7 +624,8 @@ void World::doDecl(const Step &st, StepRecord &rec, bool analog) {
     // C06: declaring a name on a data set that already has frames adds exactly one column
     bool uniform = !premise_broken; // a data set that already holds frames outside the declared shape has no defined column extension
     for (auto &f0 : before.frames) if (!f0.empty() && analog && f0.subs.size() != before.h.nbAnalogByFrame) uniform = false;
-    if (!rec.threw && on(ORC_C06) && !before.frames.empty() && uniform) {
+    if (!rec.threw && (on(ORC_C06) || on(ORC_C08)) && !before.frames.empty() && uniform) {
+        const char *dprop = on(ORC_C06) ? "C06" : "C08";
         bool ok = cur.frames.size() == before.frames.size();
         std::string d;
         for (size_t f = 0; ok && f < cur.frames.size(); ++f) {
@@ -638,9 +639,9 @@ void World::doDecl(const Step &st, StepRecord &rec, bool analog) {
             if (before.frames[f].empty() || (analog && before.frames[f].subs.empty())) continue;
             std::string fc;
             d = diff_frame(exp, cur.frames[f], &fc);
-            if (!d.empty()) { violate("C06", std::string("declare-column/") + (analog ? "analog/" : "point/") + fc, "frame " + tos(f) + ": " + d); break; }
+            if (!d.empty()) { violate(dprop, std::string("declare-column/") + (analog ? "analog/" : "point/") + fc, "frame " + tos(f) + ": " + d); break; }
         }
-        if (!ok) violate("C06", "declare-column/frame-count", "frame count changed by a declaration");
+        if (!ok) violate(dprop, "declare-column/frame-count", "frame count changed by a declaration");
     }
     if (!rec.threw && !before.frames.empty() && model.size() == before.frames.size())
         for (size_t f = 0; f < model.size(); ++f) {
@@ -728,7 +729,9 @@ void World::doParam(const Step &st, StepRecord &rec) {
         }
     }
     if (stop) return;
-    if (setThrew) { rec.skipped = true; rec.exc = "caller:" + setExc; return; } // nothing was handed to the object
+    if (setThrew && !(type != 0 && preset)) { rec.skipped = true; rec.exc = "caller:" + setExc; return; } // nothing to hand to the object
+    // (a caller that catches the range_error goes on using the parameter with the value it held before: it is handed over)
+    if (setThrew) probe("param.handed-over-after-refused-set");
     if (lock) p.lock();
     SnapParam handed = snap_param(p);
     Snapshot before = cur;
@@ -1223,7 +1226,12 @@ void World::doReload(const Step &st, StepRecord &rec) {
     if (enabled && (api || sv.writer_pristine)) {
         DiffOpts o;
         o.upper_names = true; o.skip_data_start = true; o.skip_prologue = true; o.ignore_empty_subframes = true;
+        o.skip_reserved_words = true; // the statements list counts, frame range, rates and events, not the reserved words
         if (!api) o.skip_file_position = true;
+        if (sv.snap.h.e1 != cur.h.e1 || sv.snap.h.e4 != cur.h.e4) {
+            probe("reserved-header-words-not-carried-through");
+            if (res.notes.size() < 3) res.notes.push_back("NOTE reserved header words (emptyBlock1/4) change across save -> restart: " + tos(sv.snap.h.e1) + " -> " + tos(cur.h.e1) + " (outside the statement of C04; not a violation)");
+        }
         std::string fc, d = diff_snapshots(sv.snap, cur, o, &fc);
         if (!d.empty()) violate(prop, "roundtrip/" + facet_with_values(fc, d), "content after reload differs from content at save: " + d);
         else probe("roundtrip.equal");
